@@ -180,7 +180,7 @@ PROPS = {
         engine="codec-harness",
     ),
     "C06": dict(
-        lean_modules=["Swim.Model.Susp", "Swim.Lemmas.Merge", "Swim.Props.C06", 'Swim.Gen.Facts', 'Swim.Props.C06Facts', 'Swim.Props.C06History', 'Swim.Model.Cluster', 'Swim.Props.Cluster', 'Swim.Props.Projection', 'Swim.Props.C06Cluster', "Swim.Props.Scale", "Swim.Props.GenTie.Lists"],
+        lean_modules=["Swim.Model.Susp", "Swim.Lemmas.Merge", "Swim.Props.C06", 'Swim.Gen.Facts', 'Swim.Props.C06Facts', 'Swim.Props.C06History', 'Swim.Model.Cluster', 'Swim.Props.Cluster', 'Swim.Props.Projection', 'Swim.Props.C06Cluster', "Swim.Props.Scale", "Swim.Props.GenTie.Lists", "Swim.Model.Acks", "Swim.Props.C19"],
         tests="^TestC06$",
         rule=("(susp) timed confirmation scripts on the real suspicion timer in virtual time (testing/synctest): k in {0,1,2,3,4,6}, minimum timeouts "
               "incl. values that are not whole milliseconds, max = 1,2,6 x min, up to 8 confirmations from 7 names incl. the accuser and duplicates at "
